@@ -4,5 +4,6 @@ CONSTANTS
   MaxHeaders = 3
   Protos = {"HTTP/1.1", "HTTP/2.0"}
   LowerBeforeLookup = FALSE
+  GuardOnFirstValue = FALSE
 INVARIANTS DumpRedacts EmitCases
 CHECK_DEADLOCK FALSE
